@@ -15,7 +15,7 @@ RULE = ("bounded-exhaustive: every sum vector of 1..5 bins over 0..G (G = 4 quic
         "in situ: the value contract runs on every numeric evaluation made by dp / complete greedy on generated instances; non-trivial = >= 2 distinct sums given unsorted; "
         "distinct on (objective, k/weights, container type, vector, flag)")
 ASSUMPTIONS = ["weighted objective with the sorted flag may raise (documented refusal) or return the correct value", "ILP passes solver expressions to value_to_minimize: skipped by the in-situ contract (non-numeric)"]
-FLOORS = {"quick": {"distinct_nontrivial": 20000, "insitu_value_evaluations": 20000}, "thorough": {"distinct_nontrivial": 200000, "insitu_value_evaluations": 200000}}
+FLOORS = {"quick": {"distinct_nontrivial": 20000, "insitu_value_evaluations": 20000}, "thorough": {"distinct_nontrivial": 100000, "insitu_value_evaluations": 100000}}
 NAMES = ("maxmin", "minmax", "diff", "ksmall", "klarge")
 
 
